@@ -64,6 +64,9 @@ var f12 = []gstmt{
 	{Text: "(* -> *)[*].style.stroke: red", Kind: "eattr", SrcPat: "*", DstPat: "*", Body: &gbody{"style.stroke", "red"}},
 	{Text: "(a -> *)[*]: q", Kind: "eattr", SrcPat: "a", DstPat: "*", Body: &gbody{"", "q"}},
 	{Text: "layers: {l: {z}}", Kind: "board"},
+	{Text: "a: null", Kind: "del", Path: P("a")},
+	{Text: "vars: {v: 1}", Kind: "vars"},
+	{Text: "d: ${v}", Kind: "obj", Path: P("d"), Body: &gbody{"", "${v}"}},
 }
 
 var f12Index = map[string]gstmt{}
@@ -113,6 +116,7 @@ type gstate struct {
 	hasBoard  bool
 	unsettled string
 	filterSet bool // a filtered glob is remembered
+	hasVars   bool
 }
 
 func keyOf(p []string) string { return strings.ToLower(strings.Join(p, "\x1f")) }
@@ -268,6 +272,18 @@ func (s *gstate) expandEdgeGlobFor(eg gstmt, z []string) {
 
 func expand12(lines []string) (twin string, unsettled string, herr string) {
 	s := &gstate{attrs: map[string]map[string]string{}}
+	usesVar, definesVar := false, false
+	for _, l := range lines {
+		if l == "d: ${v}" {
+			usesVar = true
+		}
+		if l == "vars: {v: 1}" {
+			definesVar = true
+		}
+	}
+	if usesVar && !definesVar {
+		return "", "undefined variable (C13's business)", ""
+	}
 	for _, l := range lines {
 		st, ok := f12Index[l]
 		if !ok {
@@ -337,6 +353,31 @@ func expand12(lines []string) (twin string, unsettled string, herr string) {
 				}
 			}
 			s.eattrs = append(s.eattrs, st)
+		case "vars":
+			s.out = append(s.out, l)
+			s.hasVars = true
+		case "del":
+			if s.find(st.Path) == nil {
+				s.out = append(s.out, l)
+				break
+			}
+			var keep [][]string
+			for _, o := range s.objs {
+				if !(len(o) >= len(st.Path) && keyOf(o[:len(st.Path)]) == keyOf(st.Path)) {
+					keep = append(keep, o)
+				} else {
+					delete(s.attrs, keyOf(o))
+				}
+			}
+			s.objs = keep
+			var ke []gedge
+			for _, e := range s.edges {
+				if keyOf(e.src[:1]) != keyOf(st.Path) && keyOf(e.dst[:1]) != keyOf(st.Path) {
+					ke = append(ke, e)
+				}
+			}
+			s.edges = ke
+			s.out = append(s.out, l)
 		case "board":
 			if s.hasBoard {
 				return "", "", "" // second identical board statement: merge is C15's business; skip
@@ -370,6 +411,36 @@ func c12Mech(lines []string) string {
 	}
 	if hasSuffixPat && hasBC {
 		return "suffix-pattern-matches-name-that-only-contains-the-literal"
+	}
+	// (1a) null under remembered globs
+	sawGlob, sawEGlob, sawNullAfterGlob := false, false, false
+	for _, l := range lines {
+		st := f12Index[l]
+		switch {
+		case st.Kind == "glob":
+			sawGlob = true
+		case st.Kind == "eglob":
+			sawEGlob = true
+		case st.Kind == "del":
+			if sawEGlob {
+				return "null-on-an-object-under-a-remembered-edge-glob"
+			}
+			if sawGlob {
+				sawNullAfterGlob = true
+			}
+		case st.Kind == "obj" || st.Kind == "edge":
+			if sawNullAfterGlob && (l == "a" || strings.HasPrefix(l, "a:") || strings.HasPrefix(l, "a.") || strings.Contains(l, "-> a") || strings.HasPrefix(l, "a ->")) {
+				return "object-recreated-after-null-is-not-globbed-again"
+			}
+		}
+	}
+	// (1c) a substitution-valued declaration competing with a glob on the same attribute
+	if sawGlob {
+		for _, l := range lines {
+			if l == "d: ${v}" {
+				return "substitution-valued-label-competes-with-a-glob-label"
+			}
+		}
 	}
 	// (1b) a glob declared inside a container map, followed by a statement that creates a child of that container
 	scoped := false
